@@ -250,6 +250,9 @@ def uncertainty_tokenizer(input_string: str) -> Generator[TokenInfo, None, None]
                 end = possible_e.end
             else:
                 end = toklist.lookahead(seen_minus + 5).end
+            # Keep the parentheses: a following operator (e.g. ** 2) applies to
+            # the whole measurement, not to the standard deviation.
+            yield tokinfo
             if seen_minus:
                 minus_op = next(toklist)
                 yield minus_op
@@ -264,7 +267,7 @@ def uncertainty_tokenizer(input_string: str) -> Generator[TokenInfo, None, None]
                 line=line,
             )
             std_dev = next(toklist)
-            next(toklist)  # consume final ')'
+            closing = next(toklist)  # consume final ')'
             if possible_e:
                 nominal_value, std_dev = _finalize_e(
                     nominal_value, std_dev, toklist, possible_e
@@ -272,6 +275,7 @@ def uncertainty_tokenizer(input_string: str) -> Generator[TokenInfo, None, None]
             yield nominal_value
             yield plus_minus_op
             yield std_dev
+            yield closing
         elif (
             tokinfo.type == tokenlib.NUMBER
             and toklist.lookahead(0).string == "("
@@ -308,14 +312,17 @@ def uncertainty_tokenizer(input_string: str) -> Generator[TokenInfo, None, None]
                     end=std_dev.end,
                     line=line,
                 )
-            next(toklist)  # consume final ')'
+            closing = next(toklist)  # consume final ')'
             if possible_e:
                 nominal_value, std_dev = _finalize_e(
                     nominal_value, std_dev, toklist, possible_e
                 )
+            # Same as above: emit the measurement as a parenthesised group.
+            yield tokinfo
             yield nominal_value
             yield plus_minus_op
             yield std_dev
+            yield closing
         else:
             yield tokinfo
 
